@@ -321,6 +321,55 @@ def template_priority_cases(draw):
             'tbody': draw(st.sampled_from(T_TBODY)), 'abody': draw(st.sampled_from(T_ABODY))}
 
 
+# ------------------------------------------------------------------ imported templates next to same-named local rules
+MOD_TP = 'row: sep{CELL, ","} | t2{CELL}\nsep{x, s}: x (s x)*\nt2{y}: "<" y ">" | "<" sep{y, "."} ">"\nCELL: /[a-z]/\n'
+LOCAL_BODIES = {'x': '"!"', 's': '"?" "?"', 'y': '"#"', 'sep': '"~"', 't2': '"^"'}
+
+
+@blame_lark
+def check_import_template(case, ctx):
+    """a module whose imported rule depends on private templates; the importing grammar has rules named like those templates and like their
+    parameters.  Written out by hand: everything private gets the module prefix, parameters included"""
+    loc = [n for n in sorted(LOCAL_BODIES) if n in case['locals']]
+    use = (' (' + ' | '.join(loc) + ')*') if loc else ''
+    local_rules = ''.join('%s: %s\n' % (n, LOCAL_BODIES[n]) for n in loc)
+    imp = '%import m.row\n' if case['style'] == 0 else '%import m (row, CELL)\n'
+    main = imp + 'start: row (";" row)*' + use + '\n' + local_rules + '%ignore " "\n'
+    flat = ('start: row (";" row)*' + use + '\n' + local_rules +
+            'row: m__sep{M__CELL, ","} | m__t2{M__CELL}\nm__sep{m__x, m__s}: m__x (m__s m__x)*\n'
+            'm__t2{m__y}: "<" m__y ">" | "<" m__sep{m__y, "."} ">"\nM__CELL: /[a-z]/\n%ignore " "\n')
+    if case['style'] == 1: flat = flat.replace('M__CELL', 'CELL')
+    d = scratch()
+    with open(os.path.join(d, 'm.lark'), 'w') as f: f.write(MOD_TP)
+    for parser in ('lalr', 'earley'):
+        pf = Lark(flat, parser=parser)
+        try:
+            pm = Lark(main, parser=parser, import_paths=[d])
+        except GrammarError as e:
+            raise Violation('grammar importing a rule that depends on private templates raises GrammarError; the written-out grammar builds', main=main, module=MOD_TP,
+                            flat=flat, engine=parser, error=str(e)[:300])
+        for w in case['texts']:
+            res = []
+            for p in (pf, pm):
+                # nodes made by a private template keep the template's plain name ('sep', not 'm__sep'); like alias names of a module
+                # they are compared modulo the prefix (documentation silent)
+                try: res.append(('ok', norm(p.parse(w), {'sep', 't2'})))
+                except UnexpectedInput as e: res.append(('err', type(e).__name__))
+            if res[0] != res[1]:
+                raise Violation('imported templates behave differently from the grammar written out by hand', main=main, module=MOD_TP, flat=flat, engine=parser, text=w,
+                                written_out_result=str(res[0])[:400], import_result=str(res[1])[:400])
+            ctx.label('import-template:agree:' + res[0][0])
+    if loc:
+        ctx.nontrivial(['import-template', main, case['texts']], sample={'main': main, 'module': MOD_TP, 'flat': flat, 'texts': case['texts'][:3]})
+
+
+@st.composite
+def import_template_cases(draw):
+    words = ['a', 'b', ',', ';', '<', '>', '.', '!', '?', '#', '~', '^', ' ', 'a,b', '<a>', '<a.b>', 'a;b', '<a>;b,c']
+    return {'locals': draw(st.lists(st.sampled_from(sorted(LOCAL_BODIES)), max_size=3, unique=True)), 'style': draw(st.integers(0, 1)),
+            'texts': [''.join(draw(st.lists(st.sampled_from(words), min_size=1, max_size=6))) for _ in range(5)]}
+
+
 # ------------------------------------------------------------------ terminals built from other terminals, extended/overridden after import
 MOD_T = 'num: NUMBER\nNUMBER: DIGIT+\nDIGIT: "1" | "2"\nWORD: LETTER (LETTER | DIGIT)*\nLETTER: "a" | "b"\nPAIR: LETTER DIGIT\n'
 
@@ -403,4 +452,5 @@ def phases(tier):
     return [Phase('split-into-modules', 'hypothesis', strategy=split_cases(), max_examples=12000 * k),
             Phase('templates-written-out', 'hypothesis', strategy=template_cases(), max_examples=12000 * k, check=check_templates),
             Phase('templates-with-priority-written-out', 'hypothesis', strategy=template_priority_cases(), max_examples=3000 * k, check=check_template_priority),
+            Phase('imported-templates-and-local-names', 'hypothesis', strategy=import_template_cases(), max_examples=1500 * k, check=check_import_template),
             Phase('composite-terminals-extend-override', 'hypothesis', strategy=terminal_cases(), max_examples=3000 * k, check=check_terminals)]
